@@ -237,6 +237,9 @@ def rule_L(ctx):
     eX = spec(w, 'Xp + C*math.exp(-n*%s)*math.sin(n*(%s - lambda0))' % (L, lon), sym)
     eY = spec(w, 'Yp - C*math.exp(-n*%s)*math.cos(n*(%s - lambda0))' % (L, lon), sym)
     ok = len(enu) == 1 and isinstance(enu[0].args[0], Rat) and w.rel.is_zero(enu[0].args[0] - eX) and w.rel.is_zero(enu[0].args[1] - eY)
+    ctx.check(len(enu) == 1 and len(enu[0].args) >= 3 and vr(enu[0].args[2]) == 'coords.getZ()', 'C14.L', fo,
+              'forward Lambert-93 carries the height through unchanged', witness={'third coordinate': vr(enu[0].args[2]) if enu and len(enu[0].args) > 2 else None},
+              node=fo.node, key='forward-z')
     ctx.check(ok, 'C14.L', fo, 'forward Lambert-93: X = Xp + C exp(-n L) sin(n(lon-lon0)), Y = Yp - C exp(-n L) cos(n(lon-lon0)), L the isometric latitude',
               witness={'X': vr(enu[0].args[0])[:300] if enu else None, 'expected X': vr(eX)[:300]}, node=fo.node, key='forward')
     # inverse: lon, isometric latitude and the fixed-point iteration
@@ -255,6 +258,20 @@ def rule_L(ctx):
     ctx.check(isinstance(pre.env.get('latiso'), Rat) and wi.rel.is_zero(pre.env['latiso'] - eL), 'C14.L', fi,
               'inverse isometric latitude = -log(R/C)/n with R the distance to (Xp, Yp)', witness={'found': vr(pre.env.get('latiso'))[:200]},
               node=fi.node, key='inv-latiso')
+    # what is returned: GeoCoords(lon in degrees, lat in degrees, height carried through)
+    full = [o for o in wi.run(ibody, State(dict(sym))) if o.kind == 'return']
+    if len(full) != 1:
+        raise shape_error('__projFromLambert93 is not single-path', fi.loc())
+    gc = [e for e in full[0].state.events if e.kind == 'call' and e.name == 'GeoCoords']
+    okz = len(gc) == 1 and len(gc[0].args) >= 3 and vr(gc[0].args[2]) == 'coords.getZ()'
+    ctx.check(okz, 'C14.L', fi, 'inverse Lambert-93 carries the height through unchanged (the forward projection does)',
+              witness={'arguments': [vr(a)[:60] for a in gc[0].args] if gc else None,
+                       'why': 'a dropped third argument silently returns height 0: a point with altitude does not round-trip'}, node=fi.node, key='inverse-z')
+    if gc and len(gc[0].args) >= 2:
+        deg = spec(wi, '180/math.pi', sym)
+        a0 = gc[0].args[0]
+        oklon = isinstance(a0, Rat) and wi.rel.is_zero(a0 - elon * deg)
+        ctx.check(oklon, 'C14.L', fi, 'the longitude returned is the inverse longitude converted to degrees', witness={'found': vr(a0)[:200]}, node=fi.node, key='inverse-lon-deg')
     st = State(dict(sym))
     st.env['phi'] = Rat.atom('phi@')
     st.env['latiso'] = Rat.atom('L')
@@ -296,9 +313,20 @@ def rule_B(ctx):
             ctx.check(vr(bst[-1].value) == '%s.toGeoCoords()' % f.params[1], 'C14.B', f, 'the base recorded is the geographic form of the new base',
                       witness={'stored': vr(bst[-1].value)}, node=bst[-1].node, key='rebase-value')
         else:
-            ok = len(c.args) == 1 and vr(bst[-1].value) in ('%s.toGeoCoords()' % vr(c.args[0]), vr(c.args[0]))
-            ctx.check(ok, 'C14.B', f, 'the base recorded is the one the points were converted with', witness={'converted with': vr(c.args[0]), 'recorded': vr(bst[-1].value)},
-                      node=c.node, key='geo-base:' + vr(bst[-1].value)[:30])
+            rec = vr(bst[-1].value)
+            conv = vr(c.args[0]) if len(c.args) == 1 else None
+            if rec == conv:
+                # the base object itself is recorded: only an integer SRID may be stored as is
+                guards = [repr(c_) for c_, _ in bst[-1].conds if 'isinstance' in repr(c_) and conv in repr(c_)]
+                ok = guards == ['bool(isinstance(%s, int))' % conv]
+                ctx.check(ok, 'C14.B', f, 'a coordinate base is recorded as a copy (base.toGeoCoords()); only an integer SRID is stored as it is',
+                          witness={'recorded': rec, 'under': guards,
+                                   'why': 'recording the caller\'s object itself lets a later in-place change of that object silently move the recorded base'},
+                          node=bst[-1].node, key='geo-base-alias')
+            else:
+                ok = conv is not None and rec == '%s.toGeoCoords()' % conv
+                ctx.check(ok, 'C14.B', f, 'the base recorded is (the geographic copy of) the one the points were converted with',
+                          witness={'converted with': conv, 'recorded': rec}, node=c.node, key='geo-base')
         ctx.check(vr(c.recv).endswith('.position') and 'getObs(i)' in vr(c.recv), 'C14.B', f, 'every observation is converted', witness={}, node=c.node, key='all-obs:%d' % len(c.args))
     if n_conv < 2:
         raise shape_error('Track.toENUCoords: conversion arms not found', f.loc())
